@@ -183,6 +183,11 @@ theorem fetch_known_rid (index : List (Bytes × Idx)) (rid start stop : Nat) (h 
     fetchAllByRid index rid = .ok ⟨index[rid].2, 0, index[rid].2.len⟩ := by
   simp [fetchByRid, fetchAllByRid, idxByRid, List.getElem?_eq_getElem h, Except.map]
 
+/-- the executable check the driver applies to every case (file, `.fai` entry, sequence obtained with the FASTA
+parser model) establishes `WellFormed`, i.e. every case the driver accepts is in the domain of the theorems above -/
+theorem wfCheck_sound (file : Bytes) (idx : Idx) (seq : Bytes) (h : wfCheck file idx seq = true) :
+    WellFormed file idx seq := wfCheck_sound' file idx seq h
+
 /-! ## Non-vacuity: a concrete two-line record, LF and CRLF -/
 
 private def exFile : Bytes := [62, 97, 10, 65, 67, 71, 10, 84, 10]        -- ">a\nACG\nT\n"
